@@ -66,12 +66,12 @@ CLAIMED = {
         design="DESIGN.md §4 C18"),
     "C05": dict(
         technique="static analysis: writer/reader table agreement over the clang ASTs of Aggregate{Well,Connection,Group,MSW}Data.cpp, rst/{well,connection,group,segment}.cpp and LoadRestart.cpp (slot, unit measure, summary vector, record index), with numeric equivalence classes of the measures taken from the UnitSystem tables and an index-provenance analysis for the segment records",
-        text="Decides the agreement of the restart writer's and reader's tables for the per-well, per-connection, per-group and per-segment arrays: every slot a load-bearing reader consumes is assigned by the writer; the measure the reader converts with is the measure the writer converted with, or the measure of the summary vector stored there (multisets, up to measures that have identical factors in all four unit systems); fields kept in output units flow only into UDAValue updates; the summary vector restored from an X* slot is the one stored there (derived vectors from the slots their definition names); slot names agree with the stored mnemonic; ISEG/RSEG records are written and fetched at segmentNumber()-1. NOT decided: value equality after a real save/load (precision, solution arrays, UDQ/ACTIONX state), agreement of well/group record order (loop position vs seqIndex(): a runtime invariant), and equivalence of the restarted schedule (Schedule::cmp).",
+        text="Decides the agreement of the restart writer's and reader's tables for the per-well, per-connection, per-group and per-segment arrays: every slot a load-bearing reader consumes is assigned by the writer; the measure the reader converts with is the measure the writer converted with, or the measure of the summary vector stored there (multisets, up to measures that have identical factors in all four unit systems); fields kept in output units flow only into UDAValue updates; the summary vector restored from an X* slot is the one stored there (derived vectors from the slots their definition names); slot names agree with the stored mnemonic; ISEG/RSEG records are written and fetched at segmentNumber()-1; array names and element types the readers request are the ones RestartIO::save writes; integer encoders/decoders of well and group control modes, guide-rate targets and connection direction are inverse tables. NOT decided: value equality after a real save/load (precision, solution arrays, UDQ/ACTIONX state), agreement of well/group record order (loop position vs seqIndex(): a runtime invariant), and equivalence of the restarted schedule (Schedule::cmp).",
         note="Trusted: mnemonic->measure and slot-name->mnemonic grammars in rules/C05.py; tables/c05_deferred.json, c05_reader_only.json, c05_positional.json (one reason per entry). A reader field nobody uses is reported as information, not as a violation.",
         design="DESIGN.md §4 C05"),
     "C20": dict(
         technique="static analysis: call-graph closure of the parse/build/open entry points over the resolved ASTs of all library units; exception-type, terminator-reachability, noexcept/destructor-escape and catch-site completeness rules on that closure",
-        text="Decides only the exception-discipline clause of the property (a necessary condition: breaking it turns an input error into process termination): in the closure of Parser::parse*, the EclipseState/Schedule/SummaryConfig constructors and the result-file readers, every throw expression throws a type derived from std::exception (or rethrows), no exit/abort/terminate call is reachable except the exits the caller configured (ParseContext EXIT1, ErrorGuard), no noexcept function or destructor contains a throw or calls a directly throwing repository function outside a try block, and the wrapping catch sites cover std::exception and rethrow a documented type. NOT decided: out-of-bounds access, iterator/string_view arithmetic, hangs, undefined behaviour - these are runtime properties (sanitizers, fuzzing) outside this technique.",
+        text="Decides only the exception-discipline clause of the property (a necessary condition: breaking it turns an input error into process termination): in the closure of Parser::parse*, the EclipseState/Schedule/SummaryConfig constructors and the result-file readers, every throw expression throws a type derived from std::exception (or rethrows), no exit/abort/terminate call is reachable except the exits the caller configured (ParseContext EXIT1, ErrorGuard), no noexcept function or destructor contains a throw or calls a directly throwing repository function outside a try block, the wrapping catch sites cover std::exception and rethrow a documented type, and a loop that searches a string until npos while editing it restarts the search beyond the inserted text (the one loop shape whose termination is argued). NOT decided: termination in general, out-of-bounds access, iterator/string_view arithmetic, hangs, undefined behaviour - these are runtime properties (sanitizers, fuzzing) outside this technique.",
         note="Trusted: call graph from resolved callee names with overloads merged and every override of a same-named virtual included (over-approximation of reachability). Exceptions escaping from the standard library (std::stoi, .at()) are std::exception by construction.",
         design="DESIGN.md §4 C20"),
     "C02": dict(
